@@ -57,6 +57,7 @@ type Spec struct {
 	L0RetMs    int    `json:"l0_ret_ms"`
 	Verify     bool   `json:"verify_compaction"`
 	Reset      bool   `json:"reset_local_state"`
+	StormRounds int   `json:"storm_rounds,omitempty"` // rounds of the 16-way same-path registration storm after the operation goroutines stopped
 	Profile    string `json:"profile,omitempty"` // "" = full operation set; "maint" = sync/checkpoint/snapshot/compact only; "ckpt-interrupt" = checkpoints, CRC64, syncs, snapshots with 0.1-3 s caller deadlines (demonstration of the interrupted-checkpoint class); neither is in the default case list
 }
 
@@ -962,6 +963,16 @@ func (c *child) run(fin *Final) {
 	fin.RunCalls = c.completed.Load()
 	c.stop.Store(true)
 	owg.Wait() // a call that never returns is caught by the watchdog
+	// registration storm: rounds of 16 concurrent registrations of one path under
+	// registry-lock contention, each followed by the one-instance listing check, one
+	// UnregisterDB and the lock/descriptor probes (the application writers still run)
+	if len(c.prbs) > 0 && s.Profile == "" {
+		sg := c.newG(900)
+		rounds := s.StormRounds
+		for i := 0; i < rounds && !c.isStuck.Load(); i++ {
+			c.burstN(sg, c.prbs[i%len(c.prbs)], true, 16, 4)
+		}
+	}
 	c.stopWriters.Store(true)
 	wwg.Wait()
 	c.flush()
@@ -1416,10 +1427,31 @@ func (c *child) opEnable(g *gctx, m *mainDB) {
 
 // burst: N concurrent RegisterDB(samePath); for probe paths followed by the
 // one-instance check, one UnregisterDB and the lock/fd probes.
-func (c *child) burst(g *gctx, p *sideDB, probe bool) {
-	n := 2 + g.rng.Intn(4)
+func (c *child) burst(g *gctx, p *sideDB, probe bool) { c.burstN(g, p, probe, 2+g.rng.Intn(4), 0) }
+
+// burstN: width concurrent registrations of one path, with `contend` goroutines
+// issuing registry status queries (FindDB / DBs) meanwhile, so that the registry
+// lock is handed over between waiters while the registrations leave Open().
+func (c *child) burstN(g *gctx, p *sideDB, probe bool, n, contend int) {
 	var wg sync.WaitGroup
 	startCh := make(chan struct{})
+	var done atomic.Bool
+	var cwg sync.WaitGroup
+	for i := 0; i < contend; i++ {
+		cwg.Add(1)
+		go func(i int) {
+			defer cwg.Done()
+			<-startCh
+			for !done.Load() {
+				if i%2 == 0 {
+					_ = c.st.FindDB(p.path)
+				} else {
+					_ = c.st.DBs()
+				}
+			}
+		}(i)
+	}
+	defer func() { done.Store(true); cwg.Wait() }()
 	for i := 0; i < n; i++ {
 		wg.Add(1)
 		nd := c.mkSide(p)
@@ -1432,6 +1464,7 @@ func (c *child) burst(g *gctx, p *sideDB, probe bool) {
 	}
 	close(startCh)
 	wg.Wait()
+	done.Store(true)
 	if !probe {
 		return
 	}
